@@ -176,11 +176,7 @@ func runC07(c *core.Ctx) {
 	const trel = "traversal"
 	tr := newTravRoles(p)
 	isAdvCallback := func(root *ssa.Function, ci ssa.CallInstruction) bool {
-		if !userCallback(root, ci) {
-			return false
-		}
-		nt := namedOfType(core.RegionOf(root).Canon(ci.Common().Value).Type())
-		return nt != nil && nt.Obj().Name() == "AdvVisitFn"
+		return callbackType(root, ci) == "AdvVisitFn"
 	}
 	var visiting []*ssa.Function
 	for _, fn := range tr.fns {
@@ -322,6 +318,101 @@ func runC07(c *core.Ctx) {
 				}
 			}
 			c.Check(!badL, key+"#interest-miss-continues", p.Pos(cv.Pos()), "a missing interest is skipped and the loop goes on", "when the lookup of one interest fails the loop over the interests is left: interests listed after a missing one are never explored")
+		}
+
+		// (g) stated interests are explored in the stated order
+		var interests *ssa.Call
+		for _, ci := range core.CallsR(fn) {
+			if g := ci.Parent(); g != fn && tr.recursive(g) {
+				continue
+			}
+			if cv := core.CallValue(ci); cv != nil && cv.Call.IsInvoke() && cv.Call.Method.Name() == "Interests" {
+				interests = cv
+			}
+		}
+		if interests != nil {
+			isAttn := func(v ssa.Value) bool {
+				return core.Strip(v) == ssa.Value(interests) || rg.Canon(v) == ssa.Value(interests)
+			}
+			attnNil := core.EdgesWhere(fn, func(r core.Rel) bool { return r.Op == token.EQL && isAttn(r.X) && core.IsNilConst(r.Y) })
+			nd := 0
+			badO := ""
+			posO := interests.Pos()
+			for _, ci := range core.CallsR(fn) {
+				if g := ci.Parent(); g != fn && tr.recursive(g) {
+					continue
+				}
+				isDescent := tr.descent(fn, ci)
+				if g := ci.Common().StaticCallee(); g != nil && g.Parent() == fn {
+					for _, cj := range core.CallsR(g) {
+						if tr.descent(fn, cj) {
+							isDescent = true
+						}
+					}
+				}
+				if !isDescent || ci.Parent() != fn {
+					continue
+				}
+				// only descents that can run when interests were stated
+				if _, reached := core.Reach(fn, interests, isTarget(ci), attnNil, nil); !reached {
+					continue
+				}
+				if _, reachedNil := core.Reach(fn, interests, isTarget(ci), nil, nil); !reachedNil {
+					continue
+				}
+				// ... and cannot run when none were (the explore-all loop is the other arm)
+				onlyUnderInterests := true
+				for e := range attnNil {
+					if reachFromBlock(fn, e.To(), isTarget(ci), nil) {
+						onlyUnderInterests = false
+					}
+				}
+				if !onlyUnderInterests {
+					continue
+				}
+				nd++
+				var seg ssa.Value
+				for _, a := range ci.Common().Args {
+					if isPathSegment(a.Type()) {
+						seg = a
+					}
+				}
+				if seg == nil {
+					// the segment travels inside a struct built at the call site
+					for _, a := range ci.Common().Args {
+						if st, ok := a.Type().Underlying().(*types.Struct); ok {
+							for i := 0; i < st.NumFields(); i++ {
+								if isPathSegment(st.Field(i).Type()) {
+									seg = fieldValueOfArg(a, i)
+								}
+							}
+						}
+					}
+					if seg == nil {
+						continue
+					}
+				}
+				fromAttn, fromIter := false, false
+				for w := range core.BackSlice(seg, core.SliceOpts{Stores: true, ThroughCalls: true}) {
+					switch x := w.(type) {
+					case *ssa.IndexAddr:
+						for w2 := range core.BackSlice(x.X, core.SliceOpts{Stores: true}) {
+							if isAttn(w2) {
+								fromAttn = true
+							}
+						}
+					case *ssa.Call:
+						if x.Call.IsInvoke() && x.Call.Method.Name() == "Next" {
+							fromIter = true
+						}
+					}
+				}
+				if !fromAttn || fromIter {
+					badO = "a child is explored, when the selector states its interests, under a segment that is not the current element of the Interests() list (it comes from an iterator over the node)"
+					posO = ci.Pos()
+				}
+			}
+			c.Check(nd > 0 && badO == "", key+"#interests-in-stated-order", p.Pos(posO), "stated interests are explored one by one in the order stated", badO+": children are visited in the node's order instead of the order the selector states, and an interest stated twice is explored once")
 		}
 
 		// (c) what the callback is told
@@ -506,6 +597,45 @@ func runC07(c *core.Ctx) {
 			}
 			c.Check(good, fmt.Sprintf("%s#chooser-prototype%d", core.FuncKey(fn), n), p.Pos(ci.Pos()), "link targets are built with the chooser's prototype", "a block is loaded with a prototype other than the one returned by LinkTargetNodePrototypeChooser")
 		}
+	}
+
+	c.Rule("C07.stopat", "the stop-at condition names one link: every value (*Condition).Match can return as true derives from a comparison of the two links as wholes - Cid.Equals, or equality of their String()/Binary()/KeyString()/Bytes() - and never from a comparison of a part of the CID (its multihash, prefix, codec or version): a different link that merely shares the hash must not stop the recursion", 1)
+	if fn := p.Func("traversal/selector", "*Condition", "Match"); fn != nil {
+		whole := map[string]bool{"Equals": true, "String": true, "Binary": true, "KeyString": true, "Bytes": true, "AsLink": true, "Kind": true}
+		bad := ""
+		pos := fn.Pos()
+		ncmp := 0
+		for _, ret := range core.Returns(fn) {
+			for _, rv := range core.ResultValues(ret, 0) {
+				if b, isC := core.ConstBool(rv); isC && !b {
+					continue
+				}
+				for w := range core.BackSlice(rv, core.SliceOpts{ThroughCalls: true, Stores: true}) {
+					cl, ok := w.(*ssa.Call)
+					if !ok {
+						continue
+					}
+					o := core.CalleeObj(cl)
+					if o == nil {
+						continue
+					}
+					rn := core.RecvNamed(o)
+					isCidish := rn != nil && rn.Obj().Pkg() != nil && (rn.Obj().Pkg().Path() == "github.com/ipfs/go-cid" || core.RelPkg(rn.Obj().Pkg().Path()) == "linking/cid")
+					isLinkIface := cl.Call.IsInvoke() && namedOfType(cl.Call.Value.Type()) != nil && namedOfType(cl.Call.Value.Type()).Obj().Name() == "Link"
+					if !isCidish && !isLinkIface {
+						continue
+					}
+					ncmp++
+					if !whole[o.Name()] {
+						bad = "the result depends on " + o.FullName() + ", a part of the link"
+						pos = cl.Pos()
+					}
+				}
+			}
+		}
+		c.Check(ncmp > 0 && bad == "", core.FuncKey(fn)+"#whole-link-compare", p.Pos(pos), "links are compared as wholes", bad+": a link with the same multihash under another codec (or CID version) is taken for the stop link, its block is never loaded and its subgraph is silently missing from the walk")
+	} else {
+		c.Undecided("traversal/selector.(*Condition).Match", "-", "not found")
 	}
 
 	c.Rule("C07.keepexplored", "in ExploreRecursive.Explore: once the current clause returned a non-nil selector for the child (nextSelector != nil edge), no return yields the constant nil selector - reaching the depth limit strips the recursive edge (replaceRecursiveEdge(.., nil)) but keeps sibling clauses such as a matcher in the same union", 1)
